@@ -136,7 +136,11 @@ Fixpoint c10_fb_ok (prev : option event) (l : list event) : bool :=
          match prev with Some p => kind_is KPolFailure p && Nat.eqb (e_pos p) (e_pos e) | None => false end
        else true) && c10_fb_ok (Some e) l'
   end.
-Definition c10_ok (q : request) (o : xobs) : bool := c10_fb_ok None (x_events o).
+(* the fallback function is never applied to an execution that is already cancelled: the harness' fallback functions log an
+   entry with aux = 1 when they find their execution cancelled on entry (the listener's own entries carry 0) *)
+Definition fb_not_on_cancelled (l : list event) : bool :=
+  forallb (fun e => negb (kind_is KFallbackExecuted e) || (e_aux e =? 0)) l.
+Definition c10_ok (q : request) (o : xobs) : bool := c10_fb_ok None (x_events o) && fb_not_on_cancelled (x_events o).
 
 (* ---- C01: admission — the function runs only between the admission of every enclosing breaker,
         limiter, bulkhead and cache layer: a rejection event (RateExceeded, Full, CacheHit) is never
@@ -188,7 +192,7 @@ Definition c08_ok (q : request) (o : xobs) : bool :=
   match q_ext q with
   | Some (dt, src) =>
       let tc := x_start o + dt in
-      cause_named src (x_out o) &&
+      cause_named src (x_out o) && fb_not_on_cancelled (x_events o) &&
       if x_end o <? tc then true
       else
         (Z.of_nat (length (filter (fun e => kind_is KFnStart e && (tc <? e_time e)) (x_events o))) <=? 1)
